@@ -325,7 +325,6 @@ def dump(top):
   rows = set()
   for c in top.get_all_components(): rows.add(('comp', repr(c)))
   for x in top.get_all_object_filter(lambda x: isinstance(x, Signal)): rows.add(('sig', repr(x)))
-  for x in d.all_signals: rows.add(('sig', repr(x)))
   for x in top.get_all_object_filter(lambda x: isinstance(x, MethodPort)): rows.add(('meth', repr(x)))
   ffs, once = top.get_all_update_ff(), top.get_all_update_once()
   for b in set(top.get_all_update_blocks()) | set(ffs) | set(once):
@@ -364,6 +363,8 @@ def dump_extra(top):
   for w, net in top.get_all_value_nets(): rows.add(('net', repr(w), tuple(sorted(repr(x) for x in net))))
   for w, net in top.get_all_method_nets(): rows.add(('mnet', repr(w), tuple(sorted(repr(x) for x in net))))
   for x in top.get_all_object_filter(lambda x: True): rows.add(('obj', type(x).__name__, repr(x)))
+  for x in top._dsl.all_signals: rows.add(('sigset', repr(x)))             # the set _resolve_value_connections floods from
+  for x in top._dsl.all_method_ports: rows.add(('mportset', repr(x)))      # the set _resolve_method_connections floods from
   for c in top.get_all_components():
     for x in c.get_child_components(): rows.add(('child', repr(c), repr(x)))
     rows.add(('level', repr(c), c.get_component_level()))
@@ -417,9 +418,9 @@ def drive(top, seed, cycles=20):
     top.sim_eval_combinational(); tr.append(sc.snapshot(top)); top.sim_tick(); tr.append(sc.snapshot(top))
   return tr
 
-VIEW_OF = {'comp': 'all_components', 'sig': 'all_signals', 'meth': 'all_method_ports', 'blk': 'update_blocks', 'rd': 'upblk_reads', 'wr': 'upblk_writes',
+VIEW_OF = {'comp': 'all_components', 'sig': 'signals', 'meth': 'all_method_ports', 'blk': 'update_blocks', 'rd': 'upblk_reads', 'wr': 'upblk_writes',
            'call': 'upblk_calls', 'UU': 'U_U_constraints', 'RDU': 'RD_U_constraints', 'WRU': 'WR_U_constraints', 'M': 'M_constraints', 'adj': 'adjacency',
-           'net': 'value_nets', 'mnet': 'method_nets', 'obj': 'all_named_objects', 'child': 'child_components', 'level': 'component_level'}
+           'net': 'value_nets', 'mnet': 'method_nets', 'obj': 'all_named_objects', 'sigset': 'dsl_all_signals', 'mportset': 'dsl_all_method_ports', 'child': 'child_components', 'level': 'component_level'}
 
 def row_owner(row):
   v = row[0]
@@ -680,6 +681,16 @@ class T4( Component ):
     def up_call():
       s.a.recv( 1 )
     s.add_constraints( M(s.a.recv) < U(up_call) )
+class T7( Component ):
+  def construct( s ):
+    s.in_ = InPort( 8 ); s.out = OutPort( 8 ); s.call = CallerPort()
+    s.a = pick( s, "a", Bm )( 1 )
+    s.a.in_ //= s.in_
+    s.out //= s.a.out
+    connect( s.call, s.a.recv )
+    @update_once
+    def up_c():
+      s.call( 3 )
 class T5( Component ):
   def construct( s ):
     s.in_ = InPort( 8 ); s.out = OutPort( 8 )
@@ -710,6 +721,7 @@ DIRECTED = [
   ('D-parent-M-constraint-on-child-method', 'T4', [('s.a', 'cls', 'Bm', None)], []),
   ('D-parent-value-constraint-on-child-port', 'T5', [('s.a', 'cls', 'B', None)], []),
   ('D-grandparent-block-reads-grandchild-port', 'T6', [('s.p.a', 'cls', 'B', None)], []),
+  ('D-parent-caller-port-connected-to-child-method', 'T7', [('s.a', 'cls', 'Bm', None), ('s.a', 'obj', 'Bm', 2)], []),
   ('D-plain', 'T1', [('s.a', 'cls', 'B', None), ('s.a', 'cls', 'A', None)], []),
 ]
 
@@ -721,7 +733,7 @@ def run(ctx):
   cases, meta = [], []
   for tag, topc, hist, params in DIRECTED:
     run_history(ctx, tag, DIRECTED_SRC + f'\nTop = {topc}\n', hist, params, cases, meta, feats=('directed',))
-  N = 150 if quick else 1200
+  N = 120 if quick else 1200
   for j in range(N):
     while True:
       g = Gen(random.Random(rng.randrange(1 << 30)), f'R{j}').build()
@@ -770,7 +782,7 @@ def main(ctx):
   try: run(ctx)
   except Exception as e:
     ctx.violation('C15:harness-crash', f'correspondence could not run: {e!r}', {'traceback': traceback.format_exc()}, found_input=False)
-  return ctx.finish(rule='10 directed minimal histories + random hierarchies (depth 1-3, single / list / 2-d list slots; children with wires, slices, constants, registers, '
+  return ctx.finish(rule='11 directed minimal histories + random hierarchies (depth 1-3, single / list / 2-d list slots; children with wires, slices, constants, registers, '
                          'update / update_ff / update_once blocks, U_U / RD_U / WR_U / M constraints, method ports; parents that connect, write, read, slice, call into their children) x random '
                          'replacement sequences (1-4, same slot repeated, inside the previous replacement, replace_component and replace_component_with_obj, optional set_param); '
                          'distinct = (design, history)')
